@@ -45,6 +45,7 @@ type ProjectRunner struct {
 	logger            pclog.PcLogger
 	waitGroup         sync.WaitGroup
 	exitCode          int
+	exitCodeOnce      sync.Once
 	projectState      *types.ProjectState
 	mainProcess       string
 	mainProcessArgs   []string
@@ -198,15 +199,23 @@ func (p *ProjectRunner) waitIfNeeded(process *types.ProcessConfig) error {
 func (p *ProjectRunner) onProcessEnd(exitCode int, procConf *types.ProcessConfig) {
 	if (exitCode != 0 && procConf.RestartPolicy.Restart == types.RestartPolicyExitOnFailure) ||
 		procConf.RestartPolicy.ExitOnEnd {
+		p.setExitCode(exitCode)
 		_ = p.ShutDownProject()
-		p.exitCode = exitCode
 	}
+}
+
+// setExitCode records the exit code of the process that triggered the project
+// shutdown. Processes terminated by that shutdown must not overwrite it.
+func (p *ProjectRunner) setExitCode(exitCode int) {
+	p.exitCodeOnce.Do(func() {
+		p.exitCode = exitCode
+	})
 }
 
 func (p *ProjectRunner) onProcessSkipped(procConf *types.ProcessConfig) {
 	if procConf.RestartPolicy.ExitOnSkipped {
+		p.setExitCode(1)
 		_ = p.ShutDownProject()
-		p.exitCode = 1
 	}
 }
 
